@@ -171,10 +171,10 @@ def place(inp):
         want = fold(spectrum.arma2psd(a, None, rho, fs, n))
     elif cls == "pcovar":
         a, e = spectrum.arcovar(data, 4)
-        want = fold(spectrum.arma2psd(a, None, 1.0, fs, n))
+        want = fold(spectrum.arma2psd(a, None, e / (len(data) - 4), fs, n))
     elif cls == "pmodcovar":
         a, e = spectrum.modcovar(data, 4)
-        want = fold(spectrum.arma2psd(a, None, 1.0, fs, n))
+        want = fold(spectrum.arma2psd(a, None, e / (2 * (len(data) - 4)), fs, n))
     elif cls == "parma":
         a, b, rho = spectrum.arma_estimate(data, 4, 3, 8)
         want = fold(spectrum.arma2psd(a, b, rho, fs, n))
